@@ -4,7 +4,7 @@ from ..facts import AST, VISITOR_CRATE, walk, walk_with_parents, strip_transpare
 from ..engine import Rule
 from ..cfg import calls, callee_name, place_of, op_const
 from . import common as C
-from .hirtext import expr_str
+from .hirtext import expr_str, pat_str
 from .mirflow import self_field_of
 from .influence import flow_of, switch_fields
 from .state import first_field
@@ -200,6 +200,16 @@ def r20_2(ctx):
             sides = [strip_transparent(n["l"]), strip_transparent(n["r"])]
             if any(const_str(x) == "defineComponent" for x in sides) and any(x.get("k") == "Field" and x["name"] == "sym" for x in sides):
                 sym_cmp = True
+    # ... and every place that yields the binding's context sits under such a pattern (no second arm for `imported: Some(..)`)
+    idxw = HirIndex(hb)
+    for x in idxw.nodes:
+        if x.get("k") == "Field" and x["name"] == "ctxt" and x is not strip_transparent(wn["l"]):
+            pats = [pat_str(p_["pat"]) for p_ in idxw.parents(x) if p_.get("k") == "Arm"]
+            pats += [pat_str(f["pat"]) for f in idxw.known_true(x) if not isinstance(f, tuple) and f.get("k") == "LetExpr"]
+            spec = [p_ for p_ in pats if "ImportNamedSpecifier(" in p_ or "Named(" in p_]
+            if spec and not any("imported: None" in p_ for p_ in spec):
+                named_none = False
+                r.ob("every specifier form that records the binding is un-aliased", False, C.mloc(hb, x), "the context is also taken under `%s`" % spec[0][:80])
     r.ob("only an un-aliased named specifier counts (imported: None)", named_none, C.mloc(hb, hb), "pattern ImportNamedSpecifier { imported: None, .. }" if named_none else "aliased imports (`defineComponent as x` / `x as defineComponent`) are not excluded")
     r.ob("the specifier's local name is compared with \"defineComponent\"", sym_cmp, C.mloc(hb, hb), "local.sym == \"defineComponent\"" if sym_cmp else "missing")
     return r
@@ -308,6 +318,13 @@ def r20_3(ctx):
         if n.get("k") == "MethodCall" and n["method"] == "any" and n["args"] and n["args"][0].get("k") == "Closure":
             if "PropOrSpread" in (strip_transparent(n["recv"]).get("ty") or "") or any("PropOrSpread" in (x.get("ty") or "") for x in walk(n["recv"])):
                 scan = n
+    def _whole_list(sc):
+        base = sc["recv"]
+        while strip_transparent(base).get("k") == "MethodCall":
+            if strip_transparent(base)["method"] in ("skip", "take", "skip_while", "take_while", "rev", "filter", "step_by"):
+                return False
+            base = strip_transparent(base)["recv"]
+        return strip_transparent(base).get("k") != "Index"
     if scan is None:
         for st in body["stmts"] if body.get("k") == "Block" else []:
             if st.get("k") == "If" and st.get("else") is None and any(x.get("k") == "Ret" for x in walk(st["then"])):
@@ -347,6 +364,8 @@ def r20_3(ctx):
         need_v = {"KeyValue", "Method", "Getter", "Shorthand"}
         ok_v = need_v <= variants
         ok_k = {"Ident", "Str"} <= keyforms
+        r.ob("existing-key scan looks at every property of the options literal", _whole_list(scan), C.mloc(inj, scan),
+             "props.iter().any(..)" if _whole_list(scan) else "the scan runs over a part of the property list only (`%s`): a key outside it is not seen, the option is injected again" % expr_str(scan["recv"])[:60])
         r.ob("existing-key scan covers every key-bearing property form", ok_v, C.mloc(inj, scan), "Prop variants examined: %s" % sorted(variants) if ok_v else "Prop variants examined: %s — %s would get a duplicate, later (winning) key" % (sorted(variants), sorted(need_v - variants)))
         r.ob("existing-key scan matches identifier and string keys", ok_k, C.mloc(inj, scan), "PropName forms: %s" % sorted(keyforms))
         # the write is under `!scan`
